@@ -221,6 +221,22 @@ CLAIMS = {
              "F-C07-1 (null category_owner reference in tables the library creates; deliberate in the source). Trusted: " + TB,
         technique="contract-based deductive verification (nested loop invariants, prefix-sum spec functions with induction lemmas, symbolic "
                   "maps for the object store) + bounded structural-validator stand-in (mixed)"),
+    "C15": dict(
+        category="other", design="DESIGN.md section 7 C15",
+        text="Mixed. Proved (contract-based, real cell.py/model.py/document.py): the four CellBorder setters (slot becomes the stroke iff empty "
+             "or the stroke's order is greater; other slots untouched; no exception for visible edges); model.set_cell_border for each side "
+             "assigns exactly the cell owning the edge and the neighbour sharing it (opposite side); complete syntactic obligations that "
+             "add_stroke stamps the stroke with the freshly incremented max_order and that Table.set_cell_border orders the stroke before "
+             "any cell is updated; lemma LAST-WRITER-WINS over these contracts; Style.__setattr__ for each of the 16 attributes (value stored, "
+             "text/cell update marks set exactly for text/cell attributes); Style.from_storage returns the accessors' values with neither mark "
+             "set (reading never schedules a save); complete ground checks: all 256 colour channel values survive the stored c/255 form, "
+             "font family and name tables are mutually inverse. Stroke runs in the file, style archives, merged cells and reload: bounded "
+             "stand-in with a last-writer-wins edge model, so the level is not 'proof'.",
+        note="Assumes Border/CellBorder as heap records, cell_for_stroke uninterpreted, dataclass init through __setattr__. Genuine defects "
+             "repaired: fix: commits 6c9657a (stroke ordered after the cells were updated: second stroke over an edge ignored by the open "
+             "document) and 85673dd (reading cell.style marked the style as changed). Trusted: " + TB,
+        technique="contract-based deductive verification (heap-record contracts on the setters, per-side call-effect contracts, dominance and "
+                  "stamping obligations, precedence lemma) + bounded edge-model / style round-trip stand-in (mixed)"),
 }
 NA_REASON = "check not built yet (build in progress; see DESIGN.md section 7 for the plan)"
 
